@@ -726,3 +726,68 @@ Theorem check_total_closed strict T tab_el tab_at tab_en check_fn float_parse bs
   loader_hyps T tab_el tab_at tab_en check_fn -> bytes_ok bs = true ->
   exists b, check_arxml_header strict T tab_el tab_at tab_en check_fn float_parse bs = Val b.
 Proof. intros (H1 & H2 & H3 & H4 & H5 & H6) HB. apply check_total; assumption. Qed.
+
+(* ---------- trim_byte_string, the value ---------- *)
+(* the value: what is left after dropping the blanks at both ends (the formulation the model used before the fix) *)
+Lemma drop_ws_app_nonws x : is_ws x = false -> forall L R, drop_ws (L ++ x :: R) = drop_ws (L ++ [x]) ++ R.
+Proof.
+  intros Hx L R. induction L as [|y L IH]; cbn [app drop_ws].
+  - rewrite Hx. reflexivity.
+  - destruct (is_ws y); [exact IH|]. cbn [app]. rewrite <- app_assoc. reflexivity.
+Qed.
+
+Lemma drop_ws_all l : forallb is_ws l = true -> drop_ws l = [].
+Proof. induction l as [|x l IH]; cbn [forallb drop_ws]; [reflexivity|]. destruct (is_ws x); [exact IH|discriminate]. Qed.
+
+Lemma drop_ws_position l p : position (fun c => negb (is_ws c)) l = Some p -> drop_ws l = skipn p l.
+Proof.
+  revert p; induction l as [|x l IH]; intros p; cbn [position drop_ws]; [discriminate|].
+  destruct (is_ws x); cbn [negb].
+  - destruct (position (fun c => negb (is_ws c)) l) as [k|]; [|discriminate]. cbn [option_map]. intros [= <-].
+    cbn [skipn]. apply IH. reflexivity.
+  - intros [= <-]. reflexivity.
+Qed.
+
+Lemma rev_skipn_rev {A} n (l : list A) : (n <= List.length l)%nat ->
+  rev (skipn n (rev l)) = firstn (List.length l - n) l.
+Proof.
+  intros L.
+  assert (E : rev l = rev (skipn (List.length l - n) l) ++ rev (firstn (List.length l - n) l)).
+  { rewrite <- rev_app_distr, firstn_skipn. reflexivity. }
+  rewrite E, skipn_app, rev_length, skipn_length.
+  replace (List.length l - (List.length l - n))%nat with n by lia. rewrite Nat.sub_diag. cbn [skipn].
+  rewrite skipn_all2 by (rewrite rev_length, skipn_length; lia). cbn [app]. apply rev_involutive.
+Qed.
+
+Lemma trim_byte_string_value input : trim_byte_string input = Val (rev (drop_ws (rev (drop_ws input)))).
+Proof.
+  unfold trim_byte_string. destruct input as [|c input']; [reflexivity|]. set (input := c :: input').
+  destruct (position (fun c => negb (is_ws c)) input) as [p|] eqn:P.
+  - pose proof (trim_len_ge _ _ P) as L. destruct (trim_len input <? p)%nat eqn:C; [apply Nat.ltb_lt in C; lia|].
+    f_equal. rewrite (drop_ws_position _ _ P).
+    destruct (position_split _ _ P) as (x & Hx & SPLIT). apply negb_true_iff in Hx.
+    pose proof (position_Some _ _ P) as (LT & _ & _).
+    assert (SK : skipn p input = x :: skipn (S p) input).
+    { rewrite SPLIT at 1. rewrite skipn_app, firstn_length. replace (Nat.min p (List.length input)) with p by lia.
+      rewrite Nat.sub_diag. rewrite skipn_all2 by (rewrite firstn_length; lia). reflexivity. }
+    (* trim_len input = p + length (drop_ws (rev (skipn p input))) *)
+    assert (TL : trim_len input = (List.length (drop_ws (rev (skipn p input))) + p)%nat).
+    { unfold trim_len. rewrite SPLIT at 1. rewrite rev_app_distr. cbn [rev]. rewrite <- app_assoc. cbn [app].
+      rewrite (drop_ws_app_nonws x Hx). rewrite app_length, rev_length, firstn_length.
+      replace (Nat.min p (List.length input)) with p by lia. rewrite SK. cbn [rev]. reflexivity. }
+    rewrite TL. replace (List.length (drop_ws (rev (skipn p input))) + p - p)%nat with (List.length (drop_ws (rev (skipn p input)))) by lia.
+    set (S0 := skipn p input).
+    destruct (drop_ws_suffix (rev S0)) as (n & EN). rewrite EN.
+    assert (LN : (n <= List.length S0)%nat).
+    { destruct (le_lt_dec n (List.length S0)) as [A|B]; [exact A|].
+      exfalso. assert (Z : drop_ws (rev S0) = []) by (rewrite EN; apply skipn_all2; rewrite rev_length; lia).
+      unfold S0 in Z. rewrite SK in Z. cbn [rev] in Z.
+      pose proof (drop_ws_app_len x Hx (rev (skipn (S p) input)) []) as Q. rewrite Z in Q. cbn in Q. lia. }
+    rewrite skipn_length, rev_length. symmetry. apply rev_skipn_rev. exact LN.
+  - rewrite Nat.ltb_irrefl. f_equal. rewrite Nat.sub_diag. cbn [firstn].
+    assert (A : forallb is_ws input = true).
+    { pose proof (position_None _ P) as Q. rewrite forallb_forall in Q |- *. intros y Hy. specialize (Q y Hy).
+      rewrite negb_involutive in Q. exact Q. }
+    rewrite (drop_ws_all _ A). reflexivity.
+Qed.
+
